@@ -3,6 +3,7 @@
 //! Provides additional categorization within main MT message types for routing and processing.
 
 use super::swift_utils::{parse_exact_length, parse_numeric};
+use crate::errors::ParseError;
 use crate::traits::SwiftField;
 use serde::{Deserialize, Serialize};
 
@@ -28,6 +29,13 @@ impl SwiftField for Field12 {
     where
         Self: Sized,
     {
+        // The parser works with byte offsets: refuse multi-byte characters up front
+        if !input.is_ascii() {
+            return Err(ParseError::InvalidFormat {
+                message: "Field 12 must contain only ASCII characters".to_string(),
+            });
+        }
+
         // Must be exactly 3 numeric digits
         let type_code = parse_exact_length(input, 3, "Field 12 type code")?;
         parse_numeric(&type_code, "Field 12 type code")?;
